@@ -675,11 +675,13 @@ def _derived(t: str) -> str:
 class _State:
     """Static facts about a chain prefix: column types, convention taints, row-level taints."""
 
-    def __init__(self, schema, rows_div=False, rows_agg=False, agg_steps=()):
+    def __init__(self, schema, rows_div=False, rows_agg=False, agg_steps=(), fresh_cols=None):
         self.schema = collections.OrderedDict(schema)  # name -> (type, taint)
         self.rows_div = rows_div
         self.rows_agg = rows_agg
         self.agg_steps = tuple(agg_steps)
+        # columns assigned by the immediately preceding extend: name -> 'new' | 'over' (overwritten)
+        self.fresh_cols = collections.OrderedDict(fresh_cols or {})
 
     def cols(self):
         return list(self.schema.keys())
@@ -732,10 +734,19 @@ def _num_type(st: _State, cols) -> str:
     return "float" if any(st.typ(c) == "float" for c in cols) else "int"
 
 
-def _variants(st: _State, pos: int, two_table: bool, backends: Sequence[str]) -> List[Dict[str, Any]]:
+def _variants(
+    st: _State,
+    pos: int,
+    two_table: bool,
+    backends: Sequence[str],
+    override: Optional[Dict[str, Any]] = None,
+    suffix: str = "",
+) -> List[Dict[str, Any]]:
     """All operator variants applicable to a chain prefix with static state `st`.
     Each variant: {"id", "op" (one of OPERATORS), "step" [op_name, params], "state" (new _State), "r" (in reduced grid)}."""
     R = st.roles()
+    if override:
+        R.update(override)
     A, B, K, G, P, F, F2 = R["A"], R["B"], R["K"], R["G"], R["P"], R["F"], R["F2"]
     cols = st.cols()
     out: List[Dict[str, Any]] = []
@@ -745,12 +756,15 @@ def _variants(st: _State, pos: int, two_table: bool, backends: Sequence[str]) ->
             return
         rd, ra = st.use_rows(rows_cols)
         agg_steps = st.agg_steps + ((pos,) if agg else ())
+        touched = None
+        if op in ("extend", "extend_windowed"):
+            touched = collections.OrderedDict((k, "over" if k in st.schema else "new") for k in step[1]["ops"])
         out.append(
             {
-                "id": vid,
+                "id": vid + suffix,
                 "op": op,
                 "step": step,
-                "state": _State(schema, rd, ra, agg_steps),
+                "state": _State(schema, rd, ra, agg_steps, fresh_cols=touched),
                 "r": reduced,
             }
         )
@@ -823,6 +837,41 @@ def _variants(st: _State, pos: int, two_table: bool, backends: Sequence[str]) ->
         )
     if G is not None:
         emit("x_streq", "extend", ["extend", {"ops": {n1: "%s == 'a'" % G}}], ext_schema({n1: ("bool", tj(G))}), methods=[("==", "e")])
+    # extends that CREATE or OVERWRITE a grouping / ordering / key column (the following step gets variants
+    # whose structural parameters name that column, see gen_pipelines)
+    if K is not None:
+        emit(
+            "x_newg",
+            "extend",
+            ["extend", {"ops": {n1: "(%s > 0).if_else('u', 'v')" % K}}],
+            ext_schema({n1: ("str", tj(K))}),
+            reduced=True,
+            methods=[(">", "e"), ("if_else", "e")],
+        )
+        emit(
+            "x_overk",
+            "extend",
+            ["extend", {"ops": {K: "(%s > 0).if_else(1, 0)" % K}}],
+            ext_schema({K: ("int", tj(K))}),
+            reduced=True,
+            methods=[(">", "e"), ("if_else", "e")],
+        )
+        if G is not None:
+            emit(
+                "x_overg",
+                "extend",
+                ["extend", {"ops": {G: "(%s > 0).if_else('u', 'v')" % K}}],
+                ext_schema({G: ("str", tj(K))}),
+                methods=[(">", "e"), ("if_else", "e")],
+            )
+    if A is not None:
+        emit(
+            "x_newk",
+            "extend",
+            ["extend", {"ops": {n1: "(%s > 0).if_else(1, 0)" % A}}],
+            ext_schema({n1: ("int", tj(A))}),
+            methods=[(">", "e"), ("if_else", "e")],
+        )
 
     # ---------------- extend (windowed) ----------------
     def wparams(ops, partition_by=None, order_by=None, reverse=None):
@@ -874,6 +923,15 @@ def _variants(st: _State, pos: int, two_table: bool, backends: Sequence[str]) ->
             agg=True,
             methods=[("_size", "g")],
         )
+        emit(
+            "w_litsum",
+            "extend_windowed",
+            ["extend", wparams({n1: "(1).sum()"}, partition_by=(part or 1))],
+            ext_schema({n1: ("int", "agg0")}),
+            rows_cols=pcols,
+            agg=True,
+            methods=[("sum", "g")],
+        )
         ob = [c for c in [A, B] if c not in pcols]
         ob = list(collections.OrderedDict.fromkeys(ob))
         if ob:
@@ -911,6 +969,14 @@ def _variants(st: _State, pos: int, two_table: bool, backends: Sequence[str]) ->
                 ext_schema({n1: (at, tj(A)), n2: (at, tj(A))}),
                 rows_cols=pcols + ob1,
                 methods=[("cummax", "w"), ("cummin", "w")],
+            )
+            emit(
+                "w_litcumsum",
+                "extend_windowed",
+                ["extend", wparams({n1: "(1).cumsum()"}, partition_by=(part or 1), order_by=ob1)],
+                ext_schema({n1: ("int", "")}),
+                rows_cols=pcols + ob1,
+                methods=[("cumsum", "w")],
             )
             emit(
                 "w_rank",
@@ -962,6 +1028,16 @@ def _variants(st: _State, pos: int, two_table: bool, backends: Sequence[str]) ->
                 rows_cols=gb2,
                 agg=True,
                 methods=[("count", "p"), ("_size", "p")],
+            )
+        if gb_a:
+            emit(
+                "p_litsum_g",
+                "project",
+                ["project", {"ops": {n1: "(1).sum()", n2: "%s.max()" % A}, "group_by": gb_a}],
+                proj_schema(gb_a, {n1: ("int", "agg0"), n2: (at, tj(A))}),
+                rows_cols=gb_a,
+                agg=True,
+                methods=[("sum", "p"), ("max", "p")],
             )
         emit(
             "p_sum_all",
@@ -1064,6 +1140,8 @@ def _variants(st: _State, pos: int, two_table: bool, backends: Sequence[str]) ->
             return s
 
         KJ = "k" if ("k" in st.schema and st.typ("k") == "int") else K
+        if R.get("KJ") is not None:
+            KJ = R["KJ"]
         if KJ is not None:
             for jt in ("inner", "left", "right", "full"):
                 if KJ == "k" and "z" not in st.schema:
@@ -1141,6 +1219,33 @@ def _variants(st: _State, pos: int, two_table: bool, backends: Sequence[str]) ->
     return out
 
 
+_FOCUS_REDUCED = {"w_sum", "w_rownum", "p_sum_g", "o_lim", "s_gt", "s_streq", "j_left_e"}
+
+
+def _mentions_structurally(step, c: str) -> bool:
+    """Does a STRUCTURAL column parameter of the step (not a value expression of an extend/project) name c?"""
+    import re
+
+    op, p = step
+    if op == "extend":
+        part = p.get("partition_by")
+        cols = (list(part) if isinstance(part, list) else []) + list(p.get("order_by") or []) + list(p.get("reverse") or [])
+        return c in cols
+    if op == "project":
+        return c in (p.get("group_by") or [])
+    if op == "select_rows":
+        return re.search(r"\b%s\b" % re.escape(c), p["expr"]) is not None
+    if op in ("select_columns", "drop_columns", "order_rows"):
+        return c in p["columns"]
+    if op in ("rename_columns", "map_columns"):
+        return c in p["map"] or c in p["map"].values()
+    if op == "natural_join":
+        return any(c == o or (isinstance(o, (list, tuple)) and c in o) for o in p["on"])
+    if op == "convert_records":
+        return c in p["record_keys"] or c in (p["key_col"], p["val_col"]) or c in p["value_cols"]
+    return False
+
+
 def initial_state(table: str = "d") -> _State:
     return _State(collections.OrderedDict((c, (t, "")) for c, t in SCHEMAS[table].items()))
 
@@ -1183,7 +1288,32 @@ def gen_pipelines(
                 },
             }
             return
-        for v in _variants(st, len(steps), two_table, backends):
+        vs = _variants(st, len(steps), two_table, backends)
+        seen_steps = set(json.dumps(v["step"], sort_keys=True) for v in vs)
+        # structural parameters naming a column the immediately preceding extend created / overwrote
+        for c, kind in list(st.fresh_cols.items())[:3]:
+            t = st.typ(c) if c in st.schema else None
+            base = st.roles()
+            if t == "str":
+                ov = {"G": c, "P": c}
+            elif t == "int":
+                ov = {"K": c, "P": c, "KJ": c}
+            elif t == "float":
+                ov = {"A": c, "F": c}
+                if base["B"] == c:
+                    ov["B"] = base["A"]
+                if base["F2"] == c:
+                    ov["F2"] = base["F"]
+            else:
+                continue
+            for v in _variants(st, len(steps), two_table, backends, override=ov, suffix="@%s:%s" % (kind, c)):
+                key = json.dumps(v["step"], sort_keys=True)
+                if key in seen_steps or not _mentions_structurally(v["step"], c):
+                    continue
+                seen_steps.add(key)
+                v["r"] = v["r"] and v["id"].split("@")[0] in _FOCUS_REDUCED
+                vs.append(v)
+        for v in vs:
             if reduced and not v["r"]:
                 continue
             yield from rec(v["state"], steps + [v["step"]], ids + [v["id"]])
@@ -1427,12 +1557,29 @@ def shard(seq: Sequence[Any], n: int) -> List[List[Any]]:
 # --------------------------------------------------------------------------------------------------
 
 
-def pandas_frames(spec: Dict[str, Any], data: Dict[str, Dict[str, List[Any]]]) -> Dict[str, pandas.DataFrame]:
-    """Fresh pandas frames for exactly the tables `spec` reads."""
+EXTRA_COL = "zz_extra"
+
+
+def _widen(table: Dict[str, List[Any]], schema: Dict[str, str]) -> Tuple[Dict[str, List[Any]], Dict[str, str]]:
+    """The same table with one UNDECLARED extra column in front and the declared columns in reversed
+    order (TableDescriptions keep describing the declared columns only; eval(strict=False) accepts it)."""
+    n = len(next(iter(table.values()))) if table else 0
+    wschema = collections.OrderedDict([(EXTRA_COL, "int")] + [(c, schema[c]) for c in reversed(list(schema))])
+    wtable = dict(table)
+    wtable[EXTRA_COL] = [7] * n
+    return wtable, wschema
+
+
+def pandas_frames(spec: Dict[str, Any], data: Dict[str, Dict[str, List[Any]]], wide: bool = False) -> Dict[str, pandas.DataFrame]:
+    """Fresh pandas frames for exactly the tables `spec` reads (wide: extra column + permuted order)."""
+    if wide:
+        return {t: to_pandas(*_widen(data[t], SCHEMAS[t])) for t in spec_tables(spec)}
     return {t: to_pandas(data[t], SCHEMAS[t]) for t in spec_tables(spec)}
 
 
-def polars_frames(spec: Dict[str, Any], data: Dict[str, Dict[str, List[Any]]], lazy: bool = False) -> Dict[str, Any]:
+def polars_frames(spec: Dict[str, Any], data: Dict[str, Dict[str, List[Any]]], lazy: bool = False, wide: bool = False) -> Dict[str, Any]:
+    if wide:
+        return {t: to_polars(*_widen(data[t], SCHEMAS[t]), lazy=lazy) for t in spec_tables(spec)}
     return {t: to_polars(data[t], SCHEMAS[t], lazy=lazy) for t in spec_tables(spec)}
 
 
